@@ -177,7 +177,7 @@ func init() {
 					"write": 12, "add-all": 8, "restore": 0, "rm": 0, "junk": 0}),
 				Oracles: []HistOracle{orC08}, PreReset: true, ReflogAfter: true, Messages: genMessage, AbsRefine: true}
 		})
-	checks["C05"] = histCheck("C05", []string{"C05.world_readback", "C05.walk_monotone", "C05.reset_readback", "C05.readback_writeTree", "C05.walk_write", "C05.walk_encode", "C05.walk_empty", "C05.render_children", "C05.loop_encode", "C02.flatten_writeTree"}, histRule+"; after every commit `cat-file -p` is run on every tree of the snapshot, and `reset --mixed` + `ls-files -s` read snapshots back",
+	checks["C05"] = histCheck("C05", []string{"C05.world_commit_then_reset_reads_staged", "C05.world_readback", "C05.walk_monotone", "C05.reset_readback", "C05.readback_writeTree", "C05.walk_write", "C05.walk_encode", "C05.walk_empty", "C05.render_children", "C05.loop_encode", "C02.flatten_writeTree"}, histRule+"; after every commit `cat-file -p` is run on every tree of the snapshot, and `reset --mixed` + `ls-files -s` read snapshots back",
 		func(ctx *Ctx) *HistCfg {
 			return &HistCfg{Prop: "C05", Cases: tierN(ctx, 200, 2000), MinSteps: 8, MaxSteps: 30,
 				W:       weights(Weights{"commit": 18, "add-all": 8, "add": 14, "rm": 6, "reset": 8, "rename-reset": 3, "ls-files": 6, "cat-file": 6, "write": 18, "twin-dirs": 4, "junk": 0}),
